@@ -136,6 +136,20 @@ func harnesses(r *fw.Run) []fw.HarnessSpec {
 						c.Fail("raw-roundtrip:"+name, "%s(%q) = %v,%v want %v", name, s, got, err, id)
 					}
 				}
+				// the JSON form is a string: it determines the value whatever the destination held before - another
+				// account, or what a rejected document left behind
+				used := ton.AccountID{Workchain: 77}
+				for i := range used.Address {
+					used.Address[i] = 0xFF
+				}
+				if err := json.Unmarshal([]byte(`"`+s+`"`), &used); err != nil || used != id {
+					c.Fail("json-into-used-destination", "JSON %q parsed into a variable that held another account gives %v,%v want %v", s, used.ToRaw(), err, id.ToRaw())
+				}
+				after := ton.AccountID{}
+				_ = json.Unmarshal([]byte(`"`+s[:len(s)-1]+`zz"`), &after)
+				if err := json.Unmarshal([]byte(`"`+s+`"`), &after); err != nil || after != id {
+					c.Fail("json-after-rejected-document", "JSON %q parsed into a variable that a rejected document was parsed into before gives %v,%v want %v", s, after.ToRaw(), err, id.ToRaw())
+				}
 			}
 			// JSON
 			js, err := json.Marshal(id)
